@@ -64,7 +64,7 @@ def _scribble(v, depth=0):
         v.add(_SENTINEL)
 
 
-def ask_everything(obj, _top=True):
+def ask_everything(obj, _top=True, skip=()):
     """every argument-less public question, answers discarded, exceptions ignored (a question an object cannot answer,
     e.g. a sequence accessor without sequence, raises the same way for a fresh object)"""
     from harness.impl_history import introspected
@@ -73,6 +73,8 @@ def ask_everything(obj, _top=True):
     except Exception:  # noqa
         return
     for _tok, (how, name) in sorted(qs.items()):
+        if name in skip:
+            continue
         try:
             v = getattr(obj, name)
             if how != "prop":
